@@ -299,6 +299,9 @@ def scene_control(c):
         body += ["\t" + x for x in inner]
         body.append("} while (++i < %d);" % n1)
     # goto forward/backward and short-circuit with side effects
+    # labels whose names come from a macro (every use hands the compiler the same spelling object)
+    c.globals.append("#define LBL_%s fin_%s" % (f, f))
+    body.append("for (j = 0; j < 3; j++) { if (j == 1) goto LBL_%s; if (j == 5) goto LBL_%s; acc += 3u; } LBL_%s: acc += (unsigned)j;" % (f, f, f))
     body.append("j = 0;")
     body.append("again: j++; if (j < %d) goto again; if (j == %d) goto out; acc += 7u; out: chk_u64(acc + j);" % (d(st.integers(1, 5)), d(st.integers(1, 5))))
     body.append("{ int a = %d, b = %d, r; r = (a++ > 0) && (b++ > 0); chk_i64(a * 100 + b * 10 + r); r = (a-- > 3) || (b-- > 0); chk_i64(a * 100 + b * 10 + r);"
